@@ -58,10 +58,15 @@ func runC39(p *Prog, r *Report) {
 			}
 		}
 	}
-	if waitClosure == nil || teardownDefer == nil {
-		r.Undecided("R1", "prefork: Wait closure / deferred teardown", "not found")
+	if waitClosure == nil {
+		r.Undecided("R1", "prefork: Wait closure", "not found")
 		return
 	}
+	if teardownDefer == nil {
+		r.Check("R1", "prefork registers a deferred teardown that calls shutdownChildren", false, p.Pos(fn.Pos()), "no deferred call reaches shutdownChildren: children started by prefork are left running on every return")
+		return
+	}
+	r.Check("R1", "prefork registers a deferred teardown that calls shutdownChildren", true, p.Pos(teardownDefer.Pos()), "")
 	var spawns []*ssa.Call
 	allCalls(fn, func(b *ssa.BasicBlock, c ssa.CallInstruction) {
 		if cv, ok := c.(*ssa.Call); ok && isCallTo(cv, doCmd) {
